@@ -1,6 +1,7 @@
 /- C06 driver: op lines in, observable lines out (same format as props/C06/harness.cpp). -/
 import TboxModel.Util
 import TboxModel.C06.Model
+import TboxModel.C06.NetModel
 open Tbox.Util Tbox.C06
 
 /-- generated payload `g<seed>:<len>`: byte i = (seed + 31 i + i / 256) mod 256 -/
@@ -179,11 +180,151 @@ def e2eLine (ws : List String) : Option (List String) :=
             "M e2e spres=1 cpres=1"]
   | _ => none
 
+/-! ### the TCP plumbing ("n…" ops): lean/TboxModel/C06/NetModel.lean -/
+
+namespace NetDrv
+open Tbox.C06.Net
+
+def nact? (allowed : String) (w : String) : Option Net.Act :=
+  if w == "stop" then (if allowed.contains 'p' then some .stop else none)
+  else if w == "start" then (if allowed.contains 't' then some .start else none)
+  else if w == "disc" then (if allowed.contains 'd' then some .disc else none)
+  else if w.startsWith "s:" then
+    (if allowed.contains 's' then
+      match bytesOfHex (w.drop 2).toString with
+      | some d => if d.length ≤ 64 then some (.send d) else none
+      | none => none
+     else none)
+  else none
+
+def nscript? (allowed : String) (w : String) : Option Net.Script :=
+  if w == "-" then some []
+  else
+    match (w.splitOn ",").mapM (nact? allowed) with
+    | some l => if l.length ≤ 3 then some l else none
+    | none => none
+
+def which? (w : String) : Option Nat :=
+  if w == "conn" then some 0 else if w == "disc" then some 1 else if w == "recv" then some 2
+  else if w == "sc" then some 3 else none
+
+def small? (w : String) (max : Nat) : Option Nat := do
+  let k ← w.toNat?
+  if k < max then some k else none
+
+def data? (w : String) (allowEmpty : Bool) : Option (List UInt8) := do
+  let d ← bytesOfHex w
+  if d.length ≤ 1024 ∧ (allowEmpty ∨ d ≠ []) then some d else none
+
+def parse (ws : List String) : Option Net.Op :=
+  match ws with
+  | ["nsinit"] => some .svInit
+  | ["nsstart"] => some .svStart
+  | ["nsstop"] => some .svStop
+  | ["nscleanup"] => some .svCleanup
+  | ["nssend", k, d] => do pure (.svSend (← small? k 16) (← data? d true))
+  | ["nsdisc", k] => do pure (.svDisc (← small? k 16))
+  | ["nsvalid", k] => do pure (.svValid (← small? k 16))
+  | ["nscb", w, sc] => do
+      let w ← which? w
+      pure (.svScript w (← nscript? (if w = 3 then "pd" else "pds") sc))
+  | ["ncinit", i] => do pure (.clInit (← small? i 2))
+  | ["ncstart", i] => do pure (.clStart (← small? i 2))
+  | ["ncstop", i] => do pure (.clStop (← small? i 2))
+  | ["nccleanup", i] => do pure (.clCleanup (← small? i 2))
+  | ["ncrec", i, b] => do pure (.clRec (← small? i 2) ((← small? b 2) = 1))
+  | ["ncsend", i, d] => do pure (.clSend (← small? i 2) (← data? d true))
+  | ["nccb", i, w, sc] => do
+      let w ← which? w
+      pure (.clScript (← small? i 2) w (← nscript? (if w = 0 ∨ w = 1 then "pts" else "pt") sc))
+  | ["nkinit", n] => do pure (.knInit (← small? n 6))
+  | ["nkstart"] => some .knStart
+  | ["nkstop"] => some .knStop
+  | ["nkcleanup"] => some .knCleanup
+  | ["nkcb", w, sc] => do
+      let sc ← nscript? "p" sc
+      if w == "fail" then pure (.knScript 0 sc) else if w == "conn" then pure (.knScript 1 sc) else none
+  | ["nrconn"] => some .rawConn
+  | ["nrsend", d] => do pure (.rawSend (← data? d false))
+  | ["nrclose"] => some .rawClose
+  | ["nrhold", b] => do pure (.rawHold ((← small? b 2) = 1))
+  | ["nadv", n] => do
+      let n ← n.toNat?
+      if n ≤ 100000 then pure (.adv n) else none
+  | _ => none
+
+def kindStr : Kind → String
+  | .connected => "C" | .recv _ => "R" | .sendComplete => "S" | .disconnected => "D"
+
+/-- canonical form of the callbacks of one connection in one op: C? R<all bytes>? S? D?, and
+"!order" if connected was not first / disconnected not last / either came twice -/
+def showKinds (ks : List Kind) : String :=
+  let nc := (ks.filter (· == .connected)).length
+  let nd := (ks.filter (· == .disconnected)).length
+  let ns := (ks.filter (· == .sendComplete)).length
+  let rs := ks.filterMap fun k => match k with | .recv d => some d | _ => none
+  let bad := nc > 1 || nd > 1 || (nc == 1 && ks.head? != some .connected) || (nd == 1 && ks.getLast? != some .disconnected)
+  let parts := (if nc > 0 then ["C"] else []) ++ (if rs.isEmpty then [] else ["R" ++ digest rs.flatten]) ++
+    (if ns > 0 then ["S"] else []) ++ (if nd > 0 then ["D"] else []) ++ (if bad then ["!order"] else [])
+  if parts.isEmpty then "-" else ",".intercalate parts
+
+def svNum : SvSt → Nat | .none => 0 | .inited => 1 | .running => 2
+def clNum : ClSt → Nat | .none => 0 | .inited => 1 | .connecting => 2 | .connected => 3
+def knNum : KnSt → Nat | .none => 0 | .inited => 1 | .delay => 2 | .connecting => 3
+
+def report (n n' : N) (r : Bool) : String :=
+  let evs := n'.hist.drop n.hist.length
+  let toks := (evs.filterMap fun e => match e with | .sv t _ => some t | _ => none).eraseDups.mergeSort (· ≤ ·)
+  let svPart := toks.map fun t =>
+    " t" ++ toString t ++ "=" ++ showKinds (evs.filterMap fun e => match e with | .sv t' k => if t' = t then some k else none | _ => none)
+  let clPart := [0, 1].map fun i =>
+    let mine := evs.filterMap fun e => match e with | .cl i' l k => if i' = i then some (l, k) else none | _ => none
+    let ls := (mine.map (·.1)).eraseDups
+    let groups := ls.map fun l => showKinds (mine.filterMap fun (l', k) => if l' = l then some k else none)
+    " C" ++ toString i ++ ":" ++ toString (clNum (n'.client i).st) ++ "=" ++ (if groups.isEmpty then "-" else "|".intercalate groups)
+  let knEv := evs.filterMap fun e => match e with | .knConnected => some "C" | .knFailed => some "F" | _ => none
+  "P ret=" ++ b01 r ++ " S" ++ toString (svNum n'.sv.st) ++ String.join svPart ++ String.join clPart ++
+    " K" ++ toString (knNum n'.kn.st) ++ "=" ++ (if knEv.isEmpty then "-" else ",".intercalate knEv) ++
+    " raw=" ++ digest n'.rawGot ++ (if n'.rawEof then "|eof" else "")
+
+def tags (n n' : N) (op : Net.Op) : List String :=
+  let evs := n'.hist.drop n.hist.length
+  let has (p : Net.Ev → Bool) := evs.any p
+  (match op with
+    | .svStop => if n.sv.table.length ≥ 1 then ["net-svstop-live"] else []
+    | .svCleanup => if n.sv.table.length ≥ 1 ∨ n.backlog ≠ [] then ["net-svcleanup-live"] else []
+    | .svSend t _ => if (svLookup n t).isNone then ["net-stale-token"] else []
+    | .svDisc t => if (svLookup n t).isNone then ["net-stale-token"] else ["net-svdisc"]
+    | .clStop i => ["net-clstop-" ++ toString (clNum (n.client i).st)]
+    | .clSend i _ => if (n.client i).st ≠ .connected then ["net-clsend-unconnected"] else []
+    | .adv _ => if (dueTimers { n with now := n'.now }).length ≥ 1 then ["net-retry-timer"] else []
+    | .knStop => ["net-knstop-" ++ toString (knNum n.kn.st)]
+    | _ => []) ++
+  (if has (fun e => match e with | .sv _ .disconnected => true | _ => false) then ["net-sv-disconnected"] else []) ++
+  (if has (fun e => match e with | .cl _ _ .disconnected => true | _ => false) then ["net-cl-disconnected"] else []) ++
+  (if has (fun e => e == .svStop) && (match op with | .svStop => false | .svCleanup => false | _ => true) then ["net-stop-in-callback"] else []) ++
+  (if has (fun e => match e with | .clStart _ => true | _ => false) && (match op with | .clStart _ => false | _ => true) then ["net-reconnect"] else []) ++
+  (if has (fun e => e == .knFailed) then ["net-connect-failed"] else []) ++
+  ["net"]
+
+def stepLine (n : N) (ws : List String) : N × List String :=
+  -- a previous op never came to rest (callback scripts feeding each other): nothing more is compared
+  if n.q ≠ [] then (n, ["P livelock"]) else
+  match parse ws with
+  | none => (n, ["bad-op"])
+  | some op =>
+    if !op.okIn n then (n, ["bad-op"]) else
+    let r := (Net.step {} n op).2
+    let n' := Net.stepQ {} n op
+    if n'.q ≠ [] then (n', ["B net-not-quiescent", "P livelock"]) else
+    ({ n' with rawGot := [] }, ["B " ++ " ".intercalate (tags n n' op), report n n' r])
+
+end NetDrv
+
 def stepLine (s : S) (line : String) : S × List String :=
   let ws := words line
   match ws with
   | [] => (s, [])
-  | "case" :: _ => (init, [line.trimAscii.toString])
   | "e2e" :: _ => (s, (e2eLine ws).getD ["bad-op"])
   | _ =>
     match parseOp ws with
@@ -200,4 +341,19 @@ def stepLine (s : S) (line : String) : S × List String :=
          if s'.conn ∧ s'.expired then "M gone" else
          "M armed=" ++ b01 s'.writeArmed ++ " ron=" ++ b01 s'.readOn ++ " sq=" ++ toString s'.sendQ.length])
 
-def main : IO Unit := runDriver init stepLine
+def isNetOp (w : String) : Bool :=
+  w.length ≥ 2 ∧ w.startsWith "n" ∧ "sckra".contains (w.toList.getD 1 ' ')
+
+def stepBoth (st : S × Net.N) (line : String) : (S × Net.N) × List String :=
+  match words line with
+  | "case" :: _ => ((init, Net.init), [line.trimAscii.toString])
+  | w :: ws =>
+      if isNetOp w then
+        let r := NetDrv.stepLine st.2 (w :: ws)
+        ((st.1, r.1), r.2)
+      else
+        let r := stepLine st.1 line
+        ((r.1, st.2), r.2)
+  | [] => (st, [])
+
+def main : IO Unit := runDriver (init, Net.init) stepBoth
